@@ -20,6 +20,27 @@ def main(inp, outp):
     import pint
     from . import c18 as H
     app = pint.application_registry.get()
+    if job.get("mode") == "produce":
+        # build, USE (hash the container, compare, convert), then pickle with every protocol
+        import base64
+        blobs = []
+        for spec in job["specs"]:
+            o = H.build_spec(app, spec)
+            u = H.units_of(o) if spec[0] != "exception" else o.units1
+            hash(u)
+            if spec[0] == "exception":
+                hash(o.units2._units)
+                str(o)
+            assert u == u
+            if hasattr(o, "to_base_units"):
+                try:
+                    o.to_base_units()
+                except Exception:
+                    pass
+            blobs.append([base64.b64encode(pickle.dumps(o, p)).decode() for p in range(pickle.HIGHEST_PROTOCOL + 1)])
+        with open(outp, "w") as f:
+            json.dump({"pint_file": pint.__file__, "blobs": blobs, "hashseed": __import__("os").environ.get("PYTHONHASHSEED")}, f)
+        return
     out = {"pint_file": pint.__file__, "steps": []}
     lazy_before = type(app).__name__
     units0 = set(app._units)           # first touch: builds the lazy default registry
